@@ -86,6 +86,8 @@ type Exec struct {
 	footprints map[string]*footprint
 	curFoot    *footprint
 	pathAux    map[string]interface{}
+	assertedVars map[string]bool
+	varCache   map[int][]string
 
 	// accumulated over paths
 	Paths        int
@@ -188,6 +190,10 @@ func (e *Exec) resetPath() {
 	e.footprints = map[string]*footprint{}
 	e.curFoot = nil
 	e.pathAux = map[string]interface{}{}
+	e.assertedVars = map[string]bool{}
+	if e.varCache == nil {
+		e.varCache = map[int][]string{}
+	}
 }
 
 func (e *Exec) runPath(fn *ssa.Function) (kind string) {
@@ -231,6 +237,8 @@ func (e *Exec) decide(c *Term) bool {
 		return c.B
 	}
 	e.decs++
+	free := e.freeBoolLit(c)
+	e.noteVars(c)
 	if e.cursor < len(e.trace) {
 		ent := &e.trace[e.cursor]
 		e.cursor++
@@ -246,8 +254,11 @@ func (e *Exec) decide(c *Term) bool {
 		}
 		return ent.val
 	}
-	sT := e.sol.CheckWith(c)
-	sF := e.sol.CheckWith(e.tf.Not(c))
+	sT, sF := Sat, Sat
+	if !free {
+		sT = e.sol.CheckWith(c)
+		sF = e.sol.CheckWith(e.tf.Not(c))
+	}
 	ent := traceEnt{depthBefore: e.sol.Depth(), lit: c}
 	switch {
 	case sT == Unsat && sF == Unsat:
@@ -282,6 +293,7 @@ func (e *Exec) assume(c *Term) {
 	if c.IsFalse() {
 		e.end("infeasible", "assume(false)")
 	}
+	e.noteVars(c)
 	if e.cursor < len(e.trace) {
 		ent := &e.trace[e.cursor]
 		e.cursor++
@@ -302,6 +314,47 @@ func (e *Exec) assume(c *Term) {
 	}
 	e.trace = append(e.trace, ent)
 	e.cursor++
+}
+
+// assumeFresh adds a constraint that only bounds a freshly created input
+// (always satisfiable together with the path): no solver check is needed.
+func (e *Exec) assumeFresh(c *Term) {
+	if c.IsTrue() {
+		return
+	}
+	e.noteVars(c)
+	if e.cursor < len(e.trace) {
+		e.cursor++
+		return
+	}
+	ent := traceEnt{kind: 'a', val: true, depthBefore: e.sol.Depth(), lit: c}
+	e.sol.Push()
+	e.sol.Assert(c)
+	e.trace = append(e.trace, ent)
+	e.cursor++
+}
+
+func (e *Exec) noteVars(c *Term) {
+	vs, ok := e.varCache[c.id]
+	if !ok {
+		m := map[string]*Term{}
+		c.Vars(m)
+		for k := range m {
+			vs = append(vs, k)
+		}
+		e.varCache[c.id] = vs
+	}
+	for _, v := range vs {
+		e.assertedVars[v] = true
+	}
+}
+
+// freeBoolLit reports whether c is a (negated) boolean input not yet constrained on this path.
+func (e *Exec) freeBoolLit(c *Term) bool {
+	if c.Op == "not" {
+		c = c.Args[0]
+	}
+	return c.Op == "var" && c.Sort == SBool && !e.assertedVars[c.S]
 }
 
 // ---------- failures and obligations
@@ -363,18 +416,34 @@ func (e *Exec) recordFailure(kind, assertID, site, msg, pos string, extra *Term)
 	if e.failSeen[key] > 3 {
 		return
 	}
-	var v Verdict
-	var m map[string]string
-	if extra != nil {
-		v, m = e.sol.ModelWith(e.inputs, extra)
-	} else {
-		v, m = e.sol.ModelWith(e.inputs)
-	}
+	v, m := e.model(extra)
 	if v != Sat {
 		e.Inconclusive = append(e.Inconclusive, fmt.Sprintf("%s: no model for %s %s at %s (%v)", e.harness, kind, assertID, site, v))
 		return
 	}
 	e.Failures = append(e.Failures, Failure{Harness: e.harness, AssertID: assertID, Kind: kind, Site: site, Msg: msg, Model: e.cleanModel(m), Pos: pos})
+}
+
+// model asks for a model of the path (plus extra), preferring one whose string
+// inputs stay inside the printable harness alphabet.
+func (e *Exec) model(extra *Term) (Verdict, map[string]string) {
+	var xs []*Term
+	if extra != nil {
+		xs = append(xs, extra)
+	}
+	var alpha []*Term
+	for _, in := range e.inputs {
+		if in.Sort == SStr {
+			alpha = append(alpha, e.tf.InRe(in, strAlphabet))
+		}
+	}
+	if len(alpha) > 0 {
+		v, m := e.sol.ModelWith(e.inputs, append(append([]*Term{}, xs...), alpha...)...)
+		if v == Sat {
+			return v, m
+		}
+	}
+	return e.sol.ModelWith(e.inputs, xs...)
 }
 
 func (e *Exec) cleanModel(m map[string]string) map[string]string {
@@ -414,7 +483,7 @@ func (e *Exec) goPanic(fr *Frame, ins ssa.Instruction, cond *Term, what string) 
 func (e *Exec) obligation(id string, c *Term, fr *Frame) {
 	e.Obligations++
 	if _, ok := e.Reached[id]; !ok {
-		v, m := e.sol.ModelWith(e.inputs)
+		v, m := e.model(nil)
 		if v == Sat {
 			e.Reached[id] = e.cleanModel(m)
 		}
@@ -793,20 +862,17 @@ func (e *Exec) run(fr *Frame) Value {
 			for i := 0; i < nphi; i++ {
 				fr.env[blk.Instrs[i].(*ssa.Phi)] = vals[i]
 			}
-			// non-termination: same loop-head state with no intervening write or decision
-			if fr.visits[blk] > 1 {
+			// non-termination: the whole frame state (all phis) repeats at a loop
+			// head with no intervening heap write or symbolic decision
+			if nphi > 0 {
 				if fr.snaps == nil {
 					fr.snaps = map[*ssa.BasicBlock]loopSnap{}
 				}
-				if s, ok := fr.snaps[blk]; ok && s.writes == e.writes && s.decs == e.decs && sameVals(s.phis, vals) && nphi > 0 {
+				all := fr.allPhis()
+				if s, ok := fr.snaps[blk]; ok && s.writes == e.writes && s.decs == e.decs && sameVals(s.phis, all) {
 					e.fail("hang", "hang", e.siteOf(fr), "loop state repeats without progress in "+shortFn(fr.fn), e.posOf(fr, blk.Instrs[0]))
 				}
-				fr.snaps[blk] = loopSnap{e.writes, e.decs, vals}
-			} else if fr.visits[blk] == 1 && len(blk.Preds) > 1 {
-				if fr.snaps == nil {
-					fr.snaps = map[*ssa.BasicBlock]loopSnap{}
-				}
-				fr.snaps[blk] = loopSnap{e.writes, e.decs, vals}
+				fr.snaps[blk] = loopSnap{e.writes, e.decs, all}
 			}
 		}
 		for _, ins := range blk.Instrs[nphi:] {
@@ -855,12 +921,30 @@ func (e *Exec) run(fr *Frame) Value {
 	}
 }
 
+func (fr *Frame) allPhis() []Value {
+	var out []Value
+	for _, b := range fr.fn.Blocks {
+		for _, ins := range b.Instrs {
+			ph, ok := ins.(*ssa.Phi)
+			if !ok {
+				break
+			}
+			out = append(out, fr.env[ph])
+		}
+	}
+	return out
+}
+
 func sameVals(a, b []Value) bool {
 	if len(a) != len(b) {
 		return false
 	}
 	for i := range a {
 		switch x := a[i].(type) {
+		case nil:
+			if b[i] != nil {
+				return false
+			}
 		case *Term:
 			y, ok := b[i].(*Term)
 			if !ok || x != y {
@@ -1397,7 +1481,23 @@ func (e *Exec) slice(fr *Frame, x *ssa.Slice) Value {
 				return StrV{Chars: c.Chars[l:h], IsCh: true}
 			}
 		}
-		return StrV{T: tf.Substr(c.Term(tf), lo, tf.Sub(hi, lo))}
+		ct := c.Term(tf)
+		if l, ok := constInt(lo); ok && x.High == nil && ct.Op == "concat" {
+			// peel leading fixed-width segments
+			args := ct.Args
+			for l > 0 && len(args) > 0 {
+				w, okw := strConstLen(args[0])
+				if !okw || w > l {
+					break
+				}
+				l -= w
+				args = args[1:]
+			}
+			if l == 0 {
+				return StrV{T: tf.Concat(args...)}
+			}
+		}
+		return StrV{T: tf.Substr(ct, lo, tf.Sub(hi, lo))}
 	case SliceV:
 		l, h, m := 0, c.Len, c.Cap
 		ok := true
